@@ -44,7 +44,7 @@ def _maximal(traces):
     ser = []
     pref = set()
     for t in traces:
-        setup = json.dumps([t["hi"], t["nf"], t["sec"], t["inbox0"]], sort_keys=True)
+        setup = json.dumps([t["hi"], t["nf"], t["inbox0"]], sort_keys=True)
         acc = setup
         steps = [json.dumps(s, sort_keys=True) for s in t["h"]]
         for s in steps[:-1]:
@@ -71,17 +71,17 @@ def run(ctx):
     T = ctx.thorough
 
     # ------------------------------------------------------------------ model checking
-    mc = ["Data", "SMPQ", "FaultsQ"] + (["AKE", "SMP", "DataT", "Faults", "SMP2", "Full", "Requery"] if T else [])
+    mc = ["Data", "SMPSeq", "FaultsQ"] + (["AKE", "SMPQ", "SMP", "SMPSeq3", "SMPSeqFixed", "DataT", "Faults", "SMP2", "Full", "Requery"] if T else [])
 
     def mcjob(c):
         return lambda: ctx.tlc(MODULE_MC, cfg="OTR_%s.cfg" % c, workers=4 if T else 2, timeout=2400, count=False,
                                coverage=(T and c in EXPECT_UNUSED), note="exhaustive")
-    gens = {"AKEQ": dict(cfg="OTR_GenAKEQ.cfg"),
+    gens = {"AKEQ": dict(cfg="OTR_GenAKEQ.cfg"), "SMPSeq": dict(cfg="OTR_GenSMPSeq.cfg"),
             "Sim": dict(cfg="OTR_GenSim.cfg", simulate=ctx.pick(220, 1500), depth=40)}
     if T:
         gens.update({"AKE": dict(cfg="OTR_GenAKE.cfg"), "Data": dict(cfg="OTR_GenData.cfg"), "SMPw": dict(cfg="OTR_GenSMP.cfg"),
                      "FaultsW": dict(cfg="OTR_GenFaults.cfg"), "SMP2w": dict(cfg="OTR_GenSMP2.cfg"), "RequeryW": dict(cfg="OTR_GenRequery.cfg"),
-                     "CommitTamperW": dict(cfg="OTR_GenCommitTamper.cfg")})
+                     "CommitTamperW": dict(cfg="OTR_GenCommitTamper.cfg"), "SMPSeq3W": dict(cfg="OTR_GenSMPSeq3.cfg")})
 
     def genjob(k):
         return lambda: ctx.tlc(MODULE_GEN, workers=1, timeout=2400, count=False, note="behaviour generation", **gens[k])
@@ -93,13 +93,21 @@ def run(ctx):
     # configuration: TLC must still find the state without a D-H key that made the next commit panic
     jobs.append(("doc:CommitState", lambda: ctx.tlc(MODULE_MC, cfg="OTR_DocCommitState.cfg", workers=1, timeout=2400, count=False,
                                                      expect_violation=True, note="expected counterexample: pre-b85d235 commit handling reaches AwaitingRevealSig without a D-H key")))
+    # finding C47-S1 (open): the code as it is keeps the SMP state after a FAILED run, so RunOutcome (every clean run of a session:
+    # responder asked once, Complete on both sides iff the secrets of that run are equal) fails for the first run the other side
+    # starts afterwards; the must-hold configurations check RunOutcomeKnown (RunOutcome without that situation), this Doc
+    # configuration must find the counterexample, and OTR_SMPSeqFixed (thorough) shows RunOutcome holds for the proposed repair
+    jobs.append(("doc:SMPStale", lambda: ctx.tlc(MODULE_MC, cfg="OTR_DocSMPStale.cfg", workers=1, timeout=2400, count=False,
+                                                  expect_violation=True, note="expected counterexample (finding C47-S1): SMP state kept after a failed run")))
     if T:
+        jobs.append(("doc:SecondRun", lambda: ctx.tlc(MODULE_MC, cfg="OTR_DocSecondRun.cfg", workers=1, timeout=2400, count=False,
+                                                       expect_violation=True, note="non-vacuity: a clean, answered second run after a successful first one is reachable")))
         # outside the property's scope (re-keying an encrypted conversation): the model predicts that a message sent between
         # the arrival of the peer's query and the completion of the new AKE is lost; documented counterexample, and the
         # RequeryW behaviours confirm on the real code that it behaves as modelled
         jobs.append(("doc:RequeryLoss", lambda: ctx.tlc(MODULE_MC, cfg="OTR_DocRequeryLoss.cfg", workers=2, timeout=2400, count=False,
                                                          expect_violation=True, note="expected counterexample: data sent during re-keying is lost")))
-    res = _par(ctx, jobs, max_parallel=ctx.pick(7, 8))
+    res = _par(ctx, jobs, max_parallel=ctx.pick(9, 9))
     for c in mc:
         r = res["mc:" + c]
         if not r.ok:
@@ -114,6 +122,11 @@ def run(ctx):
                 raise vlib.Infra("vacuity: actions never taken in OTR_%s: %s" % (c, acts))
     if res["doc:CommitState"].violated != "NoNilKey":
         raise vlib.Infra("the documented counterexample to NoNilKey (pre-repair commit handling) was not found (TLC: %r)" % res["doc:CommitState"].violated)
+    if res["doc:SMPStale"].violated != "RunOutcome":
+        raise vlib.Infra("the documented counterexample to RunOutcome (SMP state kept after a failed run) was not found (TLC: %r): "
+                         "if the code was repaired, set FixSMPReset = TRUE in the OTR configurations" % res["doc:SMPStale"].violated)
+    if T and res["doc:SecondRun"].violated != "NoSecondRunAfterSuccess":
+        raise vlib.Infra("vacuity: no second SMP run after a successful first one in the model (TLC: %r)" % res["doc:SecondRun"].violated)
     if T and res["doc:RequeryLoss"].violated != "RequeryLosesNothing":
         raise vlib.Infra("the documented counterexample RequeryLosesNothing was not found (TLC: %r)" % res["doc:RequeryLoss"].violated)
     # ------------------------------------------------------------------ binding R: replay of TLC's behaviours
@@ -125,9 +138,9 @@ def run(ctx):
         if not r.ok:
             raise vlib.Infra("generator OTR_%s failed: %s" % (k, (r.cex or r.raw[-2000:])[:3000]))
         tr = [t for t in r.traces if t.get("h")]
-        if k in ("Data", "SMPw", "FaultsW", "SMP2w", "RequeryW", "CommitTamperW"):
+        if k in ("Data", "SMPw", "FaultsW", "SMP2w", "RequeryW", "CommitTamperW", "SMPSeq", "SMPSeq3W"):
             tr = _maximal(tr)
-            cap = {"Data": 7000, "SMPw": 2500, "FaultsW": 7000, "SMP2w": 2500, "RequeryW": 2500, "CommitTamperW": 2500}[k]
+            cap = {"Data": 7000, "SMPw": 2500, "FaultsW": 7000, "SMP2w": 2500, "RequeryW": 2500, "CommitTamperW": 2500, "SMPSeq": 2500, "SMPSeq3W": 3000}[k]
             if len(tr) > cap:
                 tr = rnd.sample(tr, cap)
         elif k == "Sim":
@@ -156,13 +169,21 @@ def run(ctx):
 
     # ------------------------------------------------------------------ property-level drivers on the real code
     ctx.absorb(res["drivers"], validated=False)
+    # vacuity guard for the multi-run SMP clause: second runs after a successful first one, answered, must have been replayed
+    # against the real conversations (model behaviours) and driven by the random scenarios
+    second = rr.get("extra", {}).get("replay_smp_second_run_after_complete_answered", 0)
+    second_rand = res["drivers"].get("extra", {}).get("random_smp_second_run_after_complete_answered", 0)
+    ctx.extra["smp_second_runs_after_success_replayed"] = second
+    ctx.extra["smp_second_runs_after_success_random"] = second_rand
+    if not ctx.replay and (second == 0 or second_rand == 0):
+        raise vlib.Infra("vacuity: no replayed history / random scenario contains an answered second SMP run after a successful first one (%d / %d)" % (second, second_rand))
     ctx.exhaustive = False
     ctx.notes.append("AKE interleavings are exhaustive for the modelled alphabet (every maximal history of OTR_GenAKE%s replayed); "
                      "data/SMP/fault behaviours are witness histories and simulated behaviours, not all histories" % ("" if T else "Q"))
     ctx.notes.append("observations outside the verdict: Send of a text containing NUL makes the peer parse the rest as TLVs (protocol format); "
                      "a failed reveal-signature message leaves gxBytes decrypted in place so a retry fails; a duplicate DH-key in AwaitingSig is "
                      "answered with a DH-key message carrying the peer's own value; after a failed SMP run the initiator keeps state 4 and aborts "
-                     "the peer's next SMP1; a query received while encrypted resets the key ids at once, so data sent before the new AKE completes is lost")
+                     "the peer's next SMP1 (finding C47-S1, judged per run by the harness); a query received while encrypted resets the key ids at once, so data sent before the new AKE completes is lost")
     try:
         with open(vlib.VERIF + "/known_findings.json") as fh:
             known = {k["signature"] for k in json.load(fh) if k.get("property") == "C47" and k.get("status") == "open"}
